@@ -431,6 +431,8 @@ def program(cell):
     n = len(content)
     i = cell.idx
     old = content[i] if (cell.control and not cell.env and i is not None) else None
+    if cell.env and k == "bool":
+        old = 0        # family-constant text: store `false`, which differs from element 0 (the control every family has)
     read = {"at": "(at a %s)" % ix, "array_get": "(array_get a %s)" % ix, "array_pop": "(array_pop a)"}.get(op)
     if place == "helper_void":
         body = read or ("(array_set a i %s)" % new_src(k, old) if op == "array_set" else "(array_remove_at a i)")
